@@ -46,6 +46,7 @@ type tracker struct {
 	verifiedOK  map[H]bool
 	early       map[uint16]bool // commit slot filled while no header was available
 	earlyPre    map[uint16]bool // pre-commit slot filled while no pre-block was available
+	nilAt       map[uint16]bool // commit stored in a call in which NewBlockFromContext returned nil (it could not be verified then)
 	preSent     bool
 	blockNil    bool // NewBlockFromContext returned nil at this height: stored commits could not be verified then
 	preOKs      int
@@ -81,6 +82,7 @@ func (t *tracker) roll(h uint32) {
 	t.lastOwnView = -1
 	t.verifiedOK = map[H]bool{}
 	t.early, t.earlyPre = map[uint16]bool{}, map[uint16]bool{}
+	t.nilAt = map[uint16]bool{}
 	t.preSent = false
 	t.blockNil = false
 	t.preOKs, t.blockOKs = 0, 0
@@ -482,7 +484,7 @@ func (m *monitor) processBlock(n *node, b *Block, fail bool) {
 	t.roll(d.BlockIndex)
 	t.effects = append(t.effects, "PBLOCK")
 	m.tick("C02")
-	valid, counted, early := 0, 0, 0
+	valid, counted, early, nilrc := 0, 0, 0, 0
 	for i, c := range d.CommitPayloads {
 		if c != nil && c.ViewNumber() == d.ViewNumber {
 			counted++
@@ -490,6 +492,8 @@ func (m *monitor) processBlock(n *node, b *Block, fail bool) {
 				valid++
 			} else if t.early[uint16(i)] {
 				early++
+			} else if t.nilAt[uint16(i)] {
+				nilrc++
 			}
 		}
 	}
@@ -498,7 +502,11 @@ func (m *monitor) processBlock(n *node, b *Block, fail bool) {
 		sig := "too-few-commits"
 		if counted >= mOf(d) {
 			sig = "invalid-commit-counted"
-			if counted-valid == early {
+			if nilrc > 0 && counted-valid == early+nilrc {
+				// the commit arrived while the proposal was held, but the application's NewBlockFromContext returned nil in that very
+				// call: the library could not verify it then and never verifies it later (D2r)
+				sig = "commit-unverified/block-unavailable-at-receipt"
+			} else if counted-valid == early {
 				sig = "early-commit-unverified"
 				if amevOn(n, d.BlockIndex) {
 					// the code verifies stored commits when it sends its own Commit after its own PreCommit: an
@@ -675,6 +683,16 @@ func (m *monitor) after(n *node, desc string) {
 			if l != len(d.Validators) {
 				m.nhit(n, "C05", "table-size-of-an-earlier-height", fmt.Sprintf("node %d after %s: %s has %d slots for %d validators", n.id, desc, name, l, len(d.Validators)))
 				break
+			}
+		}
+	}
+	if strings.HasPrefix(desc, "M 48 ") {
+		var hh, vv, from int
+		if k, _ := fmt.Sscanf(desc[5:], "%d %d %d", &hh, &vv, &from); k == 3 && uint32(hh) == d.BlockIndex && from >= 0 && from < len(d.CommitPayloads) && d.CommitPayloads[from] != nil {
+			for _, e := range t.effects {
+				if e == "NEWBLOCKNIL" {
+					t.nilAt[uint16(from)] = true
+				}
 			}
 		}
 	}
